@@ -72,4 +72,12 @@ CLAIMS['C01'] = {
             'an injectivity lemma on the reference model closes the kinds not paired directly. Reachability witnesses (must be refuted) show the accepting path is reached. Path trees exhausted within the bounds.',
     'note': 'Trusted: the ideal-signature stub (existential unforgeability as exactness), stand-in keys with symbolic packet bodies, CrossHair. Not covered: the primitives; RSA/DSA/ECDSA verify wrappers '
             '(exercised through EdDSA only); time-valued subpackets concrete; payloads of 0..3 symbolic octets.'}
+CLAIMS['C04'] = {
+    'technique': 'accept-predicate equivalence under an adversarial (ideal) cipher: bounded symbolic execution of the real decrypt paths with the cipher output as a symbolic octet string (CrossHair+z3)',
+    'text': 'The cipher is replaced by its ideal functionality - under the right key it returns the plaintext, otherwise an arbitrary symbolic octet string - and SHA-1 by a stand-in that is collision-free on the lengths used. '
+            'O4.1: IntegrityProtectedSKEDataV1.decrypt returns iff the RFC 4880 5.13 predicate holds for the decrypted octets and then returns exactly the payload, else raises PGPDecryptionError (block sizes 8 and 16, every octet symbolic). '
+            'O4.2: the public-key session-key block is accepted iff cipher id known and checksum right. O4.4: PGPMessage.decrypt with a wrong passphrase raises whatever the wrong key decrypts to. '
+            'O4.5: replacing any single octet of the protected string (symbolic position and value) makes decryption raise. Reachability witnesses show the accepting paths are reached. Path trees exhausted within bounds.',
+    'note': 'Assumes the real ciphers behave like the ideal one and SHA-1 like a collision-free function (that is cryptography, not PGPy). Not covered: ECDH unwrap (C code), bodies beyond a few octets. '
+            'Observed, not a violation of the property as stated: PGPy has no minimum-length check on the decrypted string and none on the session-key block length.'}
 NOT_APPLICABLE = {p: NB for p in ['C%02d' % i for i in range(1, 21)] if p not in CLAIMS}
